@@ -47,6 +47,13 @@ HOSTS = {
         "serialize": "rodbus/src/common/serialize.rs",
         "phys": "rodbus/src/common/phys.rs",
     },
+    # same crate, compiled with --cfg verif_small_frames (hook H3: MAX_ADU_LENGTH = 13) for the session glue
+    "small": {
+        "support": "rodbus/src/lib.rs",
+        "glue_server": "rodbus/src/server/task.rs",
+        "glue_client": "rodbus/src/client/task.rs",
+        "glue_reader": "rodbus/src/common/frame.rs",
+    },
     "ffi": {
         "ffi_support": "ffi/rodbus-ffi/src/lib.rs",
         "ffi_server": "ffi/rodbus-ffi/src/server.rs",
@@ -59,10 +66,19 @@ HOSTS = {
 
 MEMBERS = {
     "rodbus": ["rodbus"],
+    "small": ["rodbus"],
     "ffi": ["rodbus", "ffi/rodbus-ffi", "ffi/rodbus-schema"],
 }
 
-PACKAGE = {"rodbus": "rodbus", "ffi": "rodbus-ffi"}
+PACKAGE = {"rodbus": "rodbus", "small": "rodbus", "ffi": "rodbus-ffi"}
+RUSTFLAGS = {"small": "--cfg verif_small_frames"}
+SHIM_TRACING = {"rodbus", "small"}
+
+
+def harness_file(engine, mod):
+    # `support` is shared between the two rodbus engines
+    d = "rodbus" if (engine == "small" and mod == "support") else engine
+    return os.path.join(VERIF, "harness", d, mod + ".rs")
 
 
 def workdir(engine, tag):
@@ -88,10 +104,9 @@ def weave(engine, tag, tier="quick"):
     src = os.path.join(root, "src")
     target = os.path.join(root, "target")
     os.makedirs(src, exist_ok=True)
-    hdir = os.path.join(VERIF, "harness", engine)
     attach = []
     for mod, host in HOSTS[engine].items():
-        hfile = os.path.join(hdir, mod + ".rs")
+        hfile = harness_file(engine, mod)
         if os.path.exists(hfile):
             attach.append((mod, host, hfile))
     edited = ["Cargo.toml"] + [m + "/Cargo.toml" for m in MEMBERS[engine]] + [h for _, h, _ in attach]
@@ -117,7 +132,7 @@ def weave(engine, tag, tier="quick"):
     members = ",\n".join(f'  "{m}"' for m in MEMBERS[engine])
     txt, n = re.subn(r"(?s)members\s*=\s*\[.*?\]", "members = [\n" + members + "\n]", txt, count=1)
     assert n == 1, "workspace members not found in Cargo.toml"
-    if engine == "rodbus":
+    if engine in SHIM_TRACING:
         txt += f'\n[patch.crates-io]\ntracing = {{ path = "{VERIF}/shims/tracing" }}\n'
     _write_if_changed(os.path.join(src, "Cargo.toml"), txt)
     for m in MEMBERS[engine]:
